@@ -95,7 +95,8 @@ func (p *gcpPicker) Pick(info balancer.PickInfo) (balancer.PickResult, error) {
 	callback := func(info balancer.DoneInfo) {
 		scRef.streamsDecr()
 		p.detectUnresponsive(ctx, scRef, callStarted, info.Err)
-		if info.Err != nil {
+		if info.Err != nil || !hasGCPCtx {
+			// Without the interceptor's context there is no reply message to bind keys from.
 			return
 		}
 
